@@ -260,6 +260,9 @@ func execStore(t *testing.T, sc *ConcScenario, choose chooser) *execResult {
 	if sc.Extra["flusher"] == true {
 		w.S.Start()
 	}
+	if w.ledger != nil {
+		w.initLocs = w.locateAll()
+	}
 	s := newSched(sc.Ticks, time.Duration(sc.Tick))
 	recs := make([]callRec, 0, 8)
 	idxOf := make([][]int, len(sc.Threads))
@@ -1232,4 +1235,97 @@ func runC17Seq(t *testing.T, c *Collector) {
 		c.count("nontrivial", 1)
 		c.stateKey("repeat-20")
 	})
+}
+
+
+// ---- C13 under engine A: freelist Put / Flush / hand-over interleaved ----
+
+// ledgerConcFinal: every key is updated by at most one call of the scenario,
+// so the location that stops being current is the one the key had before the
+// threads started, whatever the interleaving.
+func ledgerConcFinal(w *World, s *Sched, recs []callRec, res *execResult) {
+	if res.viol != nil || w.ledger == nil {
+		return
+	}
+	for _, r := range recs {
+		if !r.Returned || r.Err != "" {
+			continue
+		}
+		k := w.keyByName(r.Key)
+		old, had := w.initLocs[string(k.Digest)]
+		switch r.Op.Kind {
+		case OpPut:
+			if had {
+				w.ledger.superseded(old, "overwrite of "+r.Key)
+			}
+		case OpRemove:
+			if had && r.Removed {
+				w.ledger.superseded(old, "remove of "+r.Key)
+			}
+		}
+	}
+	// the model is what the quiescent store holds (only used for "is this
+	// location current")
+	w.Model = map[string][]byte{}
+	for _, k := range w.Keys {
+		if v, found, err := w.S.Get(k.Raw); err == nil && found {
+			w.Model[string(k.Digest)] = v
+		}
+	}
+	w.ledger.noteCurrent(w)
+	for _, b := range w.initLocs {
+		w.ledger.everCurrent[flEntry{uint64(b.Offset), uint32(b.Size)}] = true
+	}
+	if err := w.S.Flush(); err != nil {
+		return
+	}
+	// Store.Flush returns early when only the freelist has unflushed entries
+	// (they go out with the next flush that has index or primary work, or at
+	// Close); write them now so that "presented exactly once" can be checked
+	if _, err := w.S.VerifFreelist().Flush(); err != nil {
+		return
+	}
+	if v := w.ledger.Check(w, false); v != nil {
+		res.viol = v
+		return
+	}
+	if mp := w.mh(); mp != nil {
+		for i := 0; i < 2; i++ {
+			w.gcPrimary(mp, context.Background(), 101)
+		}
+		if v := w.ledger.Check(w, true); v != nil {
+			res.viol = v
+		}
+	}
+}
+
+func c13ConcScenarios(tier string) []*ConcScenario {
+	// K1 overwritten and flushed: the freelist file is not empty; K0 and K4
+	// present and flushed
+	init := []Op{P(0, 1), P(1, 1), P(4, 1), opF, P(1, 2), opF}
+	gc := []Op{{Kind: OpPriGC, A: 101}}
+	progs := [][][]Op{
+		{{P(0, 2)}, {opF}, gc},
+		{{P(0, 2), opF}, gc},
+		{{R(4)}, {P(0, 2)}, {opF}},
+		{{R(4), opF}, {P(0, 2)}, gc},
+	}
+	bound := 2
+	cfgs := []Config{cfg("mh", false, 8, 48, 48)}
+	if tier != "quick" {
+		bound = 3
+		cfgs = append(cfgs, cfg("mh", false, 8, 1, 1))
+		progs = append(progs, [][]Op{{P(0, 2)}, {R(4)}, {opF}, gc})
+	}
+	var scs []*ConcScenario
+	for _, c := range cfgs {
+		for _, ths := range progs {
+			sc := &ConcScenario{Prop: "C13", Cfg: c, Init: init, Threads: ths, Bound: bound, Exec: execStore,
+				Extra: map[string]any{"logSites": true, "final": ledgerConcFinal}}
+			sc.Name = fmt.Sprintf("c13/%s/%s", c.String(), progString(ths))
+			sc.Desc = fmt.Sprintf("init [%s]; %s", opsString(init), progString(ths))
+			scs = append(scs, sc)
+		}
+	}
+	return scs
 }
